@@ -16,6 +16,8 @@ type sigScen struct {
 	Results []string `json:"results"`
 	Use     string   `json:"use"`
 	Valid   bool     `json:"valid"`
+	Layout  string   `json:"layout"`
+	Place   string   `json:"place"`
 }
 
 // cmdSig: C14. One converter method per scenario with the parameter / result list of the scenario.
@@ -37,6 +39,9 @@ func cmdSig(args []string) {
 	b := hx.NewBatch(*work)
 	b.WriteGoMod()
 	var srcP, srcE strings.Builder
+	// custom functions of two *different* packages that share the package name `ext` (their doc comments are looked up per package)
+	var srcX [2]strings.Builder
+	usedX := [2]bool{}
 	types := "type S struct{ A int }\ntype S2 struct{ A int }\ntype T struct{ A int }\ntype X struct{ V int }\ntype Y struct{ V int }\n"
 	srcP.WriteString("package p\n\n" + types)
 	// package pe declares its own type named error: there `error` is not the built-in error
@@ -56,6 +61,11 @@ func cmdSig(args []string) {
 				src, pkgOf[i] = &srcE, "pe"
 			}
 		}
+		// the custom function lives next to the converter or in x1/ext / x2/ext
+		q, xi := "", -1
+		if s.Use == "extend" && pkgOf[i] == "p" && s.Place != "local" && s.Place != "" {
+			q, xi = "p.", int(s.Place[1]-'1')
+		}
 		var ps []string
 		var av []any
 		dump := []int{}
@@ -64,28 +74,28 @@ func cmdSig(args []string) {
 		for k, p := range s.Params {
 			switch p {
 			case "src":
-				ps = append(ps, "source S")
+				ps = append(ps, "source "+q+"S")
 				av = append(av, stv(lit(5)))
 				want = append(want, 5)
 			case "src2":
-				ps = append(ps, "other S2")
+				ps = append(ps, "other "+q+"S2")
 				av = append(av, stv(lit(6)))
 				want = append(want, 6)
 			case "ctxdecl":
-				ps = append(ps, "ctx X")
+				ps = append(ps, "ctx "+q+"X")
 				av = append(av, stv(lit(1)))
 				want = append(want, -1)
 				doc += "\t// goverter:context ctx\n"
 			case "ctxregex":
-				ps = append(ps, "rxA Y")
+				ps = append(ps, "rxA "+q+"Y")
 				av = append(av, stv(lit(2)))
 				want = append(want, -1)
 			case "conv":
-				ps = append(ps, fmt.Sprintf("conv C%d", i))
+				ps = append(ps, fmt.Sprintf("conv %sC%d", q, i))
 				av = append(av, nilv())
 				want = append(want, -1)
 			case "upd":
-				ps = append(ps, "target *T")
+				ps = append(ps, "target *"+q+"T")
 				av = append(av, ptrv(stv(lit(9))))
 				want = append(want, -1)
 				dump = append(dump, k)
@@ -98,6 +108,9 @@ func cmdSig(args []string) {
 			rs[k] = r
 			if r == "localerror" {
 				rs[k] = "error"
+			}
+			if r == "T" {
+				rs[k] = q + "T"
 			}
 		}
 		res := ""
@@ -112,8 +125,31 @@ func cmdSig(args []string) {
 			// the custom function F<i> under test, a sibling in the same file declaring other context names, and a converter using F<i>
 			fdoc := strings.ReplaceAll(doc, "\t", "")
 			body := "panic(0)"
-			fmt.Fprintf(src, "\n%sfunc F%d(%s)%s { %s }\n\n// goverter:context source\n// goverter:context other\nfunc G%d(v int, source X, other Y) string { return \"\" }\n", fdoc, i, strings.Join(ps, ", "), res, body, i)
-			fmt.Fprintf(src, "\n// goverter:converter\n// goverter:extend F%d\n// goverter:output:file ../gen/c%d.go\n// goverter:output:package %s/gen\ntype C%d interface {\n\t// goverter:context ctx\n\tConv(source S, ctx X) (T, error)\n}\n", i, i, b.Mod, i)
+			trail := ""
+			// layouts of the context line in the custom function's doc comment
+			const cl = "// goverter:context ctx\n"
+			switch s.Layout {
+			case "directive":
+				fdoc = strings.Replace(fdoc, cl, "//goverter:context ctx\n", 1)
+			case "block":
+				fdoc = strings.Replace(fdoc, cl, "/* goverter:context ctx */\n", 1)
+			case "tab":
+				fdoc = strings.Replace(fdoc, cl, "//\tgoverter:context ctx  \n", 1)
+			case "prose":
+				fdoc = strings.Replace(fdoc, cl, "// see goverter:context ctx\n", 1)
+			case "detached":
+				fdoc = strings.Replace(fdoc, cl, cl+"\n", 1)
+			case "trailing":
+				fdoc = strings.Replace(fdoc, cl, "", 1)
+				trail = " // goverter:context ctx"
+			}
+			fsrc, ext := src, fmt.Sprintf("F%d", i)
+			if xi >= 0 {
+				fsrc, ext = &srcX[xi], fmt.Sprintf("%s/x%d/ext:F%d", b.Mod, xi+1, i)
+				usedX[xi] = true
+			}
+			fmt.Fprintf(fsrc, "\n%sfunc F%d(%s)%s { %s }"+trail+"\n\n// goverter:context source\n// goverter:context other\nfunc G%d(v int, source %sX, other %sY) string { return \"\" }\n", fdoc, i, strings.Join(ps, ", "), res, body, i, q, q)
+			fmt.Fprintf(src, "\n// goverter:converter\n// goverter:extend %s\n// goverter:output:file ../gen/c%d.go\n// goverter:output:package %s/gen\ntype C%d interface {\n\t// goverter:context ctx\n\tConv(source S, ctx X) (T, error)\n}\n", ext, i, b.Mod, i)
 			lines[i] = map[string]any{"ins": []any{}, "lit": true, "calls": []call{}}
 			wants[i] = []int{}
 			continue
@@ -122,7 +158,13 @@ func cmdSig(args []string) {
 		lines[i] = map[string]any{"ins": []any{}, "lit": true, "calls": []call{{Args: av, Dump: dump}}}
 		b.API[i] = fmt.Sprintf("import (\n\tp \"%s/%s\"\n\tgen \"%s/gen\"\n)\n\nvar _ p.C%d = &gen.C%dImpl{}\n", b.Mod, pkgOf[i], b.Mod, i, i)
 	}
-	hx.WriteTree(*work, map[string]string{"p/in.go": srcP.String(), "pe/in.go": srcE.String()})
+	tree := map[string]string{"p/in.go": srcP.String(), "pe/in.go": srcE.String()}
+	for k := range srcX {
+		if usedX[k] {
+			tree[fmt.Sprintf("x%d/ext/ext.go", k+1)] = fmt.Sprintf("package ext\n\nimport p \"%s/p\"\n", b.Mod) + srcX[k].String()
+		}
+	}
+	hx.WriteTree(*work, tree)
 	t0 := time.Now()
 	all, err := hx.GenerateEach(hx.GenConfig(*work, []string{"./p", "./pe"}, nil))
 	hx.Must(err)
@@ -170,7 +212,7 @@ func cmdSig(args []string) {
 		if o.Gen == "ok" {
 			nOK++
 		}
-		rec := map[string]any{"id": i, "params": nz(s.Params), "results": nz(s.Results), "use": s.Use, "gen": o.Gen, "why": why, "compiles": !badc, "apiOK": b.BadAPI[i] == "",
+		rec := map[string]any{"id": i, "params": nz(s.Params), "results": nz(s.Results), "use": s.Use, "layout": s.Layout, "place": s.Place, "gen": o.Gen, "why": why, "compiles": !badc, "apiOK": b.BadAPI[i] == "",
 			"ran": false, "got": -1, "want": wants[i], "diag": firstLine(o.Why), "comperr": b.BadComp[i] + b.BadAPI[i]}
 		if r, ok := byID[i]; ok && r["panic"] != true {
 			nExec++
